@@ -38,3 +38,118 @@ Proof. reflexivity. Qed.
 (* without a ratio both are the box itself; a zero ratio makes the code raise *)
 Lemma constraint_no_ratio cw ch cover : constraint_sizing cw ch None cover = Some (cw, ch).
 Proof. reflexivity. Qed.
+
+(* ---------------------------------------------------------------- replacedbox_layout *)
+Definition intrinsic_or_contain (bw bh : Q) (i : intr) : option (Q * Q) :=
+  match iw i, ih i with Some w, Some h => Some (w, h) | _, _ => contain_sizing bw bh (ir i) end.
+
+Definition draw_size (f : fit) (bw bh : Q) (i : intr) : option (Q * Q) :=
+  bind (intrinsic_or_contain bw bh i) (fun '(iw', ih') =>
+  match f with
+  | Fill => Some (bw, bh)
+  | Contain => contain_sizing bw bh (ir i)
+  | Cover => cover_sizing bw bh (ir i)
+  | FitNone => Some (iw', ih')
+  | ScaleDown => bind (contain_sizing bw bh (ir i)) (fun '(dw, dh) => Some (Qmin dw iw', Qmin dh ih'))
+  end).
+
+Definition place (rgt : bool) (p : lenpct) (ref : Q) : Q :=
+  if rgt then ref - percentage p ref else percentage p ref.
+
+Lemma rb_layout_split f rgt btm px py bw bh i cx cy :
+  rb_layout f rgt btm px py bw bh i cx cy =
+  bind (draw_size f bw bh i) (fun '(dw, dh) =>
+    Some (dw, dh, place rgt px (bw - dw) + cx, place btm py (bh - dh) + cy)).
+Proof.
+  unfold rb_layout, draw_size, intrinsic_or_contain, place.
+  destruct (match iw i with Some w => match ih i with Some h => Some (w, h) | None => _ end | None => _ end)
+    as [[a b]|]; [|reflexivity].
+  cbn [bind]. destruct f; cbn [bind]; try reflexivity.
+  all: try (destruct (contain_sizing bw bh (ir i)) as [[? ?]|]; reflexivity).
+  all: try (destruct (cover_sizing bw bh (ir i)) as [[? ?]|]; reflexivity).
+Qed.
+
+Lemma intrinsic_or_contain_ok bw bh i r :
+  ir i = Some r -> 0 < r -> exists a b, intrinsic_or_contain bw bh i = Some (a, b).
+Proof.
+  intros Er Hr. unfold intrinsic_or_contain. rewrite Er.
+  destruct (contain_inside_and_touching bw bh r Hr) as [w [h [E _]]].
+  destruct (iw i), (ih i); eauto.
+Qed.
+
+(* object-fit: contain / cover / fill *)
+Theorem object_fit_contain rgt btm px py bw bh i cx cy r :
+  ir i = Some r -> 0 < r ->
+  exists dw dh x y, rb_layout Contain rgt btm px py bw bh i cx cy = Some (dw, dh, x, y) /\ contained bw bh r dw dh.
+Proof.
+  intros Er Hr. rewrite rb_layout_split. unfold draw_size.
+  destruct (intrinsic_or_contain_ok bw bh i r Er Hr) as [a [b ->]]. cbn [bind]. rewrite Er.
+  destruct (contain_inside_and_touching bw bh r Hr) as [w [h [-> C]]]. cbn [bind]. eauto 6.
+Qed.
+
+Theorem object_fit_cover rgt btm px py bw bh i cx cy r :
+  ir i = Some r -> 0 < r ->
+  exists dw dh x y, rb_layout Cover rgt btm px py bw bh i cx cy = Some (dw, dh, x, y) /\ covering bw bh r dw dh.
+Proof.
+  intros Er Hr. rewrite rb_layout_split. unfold draw_size.
+  destruct (intrinsic_or_contain_ok bw bh i r Er Hr) as [a [b ->]]. cbn [bind]. rewrite Er.
+  destruct (cover_covers_and_touching bw bh r Hr) as [w [h [-> C]]]. cbn [bind]. eauto 6.
+Qed.
+
+(* scale-down: the smaller of `none` and `contain` (both have the image's ratio, so "smaller" is unambiguous) *)
+Theorem scale_down_is_min rgt btm px py bw bh cx cy w h r :
+  0 < r -> w == h * r ->
+  let i := Intr (Some w) (Some h) (Some r) in
+  exists kw kh dw dh x y,
+    contain_sizing bw bh (Some r) = Some (kw, kh) /\
+    rb_layout ScaleDown rgt btm px py bw bh i cx cy = Some (dw, dh, x, y) /\
+    ((kw <= w /\ kh <= h /\ dw == kw /\ dh == kh) \/ (w <= kw /\ h <= kh /\ dw == w /\ dh == h)).
+Proof.
+  intros Hr E i. rewrite rb_layout_split. unfold draw_size, intrinsic_or_contain. cbn [iw ih ir i bind].
+  destruct (contain_inside_and_touching bw bh r Hr) as [kw [kh [-> [_ [_ [_ K]]]]]]. cbn [bind].
+  exists kw, kh. do 4 eexists. split; [reflexivity|]. split; [reflexivity|].
+  assert (kw <= w <-> kh <= h).
+  { rewrite K, E. split; intro L.
+    - apply Qnot_lt_le. intro N. assert (h * r < kh * r) by (apply Qmult_lt_compat_r; assumption). lra.
+    - apply Qmult_le_compat_r; lra. }
+  destruct (Qlt_le_dec w kw) as [L|L].
+  - right. assert (h <= kh) by (apply Qnot_lt_le; intro N; assert (kw <= w) by (apply H; lra); lra).
+    repeat split; try lra; [apply Q.min_r | apply Q.min_r]; lra.
+  - left. assert (kh <= h) by (apply H; assumption).
+    repeat split; try lra; [apply Q.min_l | apply Q.min_l]; lra.
+Qed.
+
+(* object-position: a percentage between 0 and 100 keeps a painted rectangle that is not larger than the content
+   box inside it, whichever edge it is measured from, and aligns the same percentage points *)
+Lemma percentage_bounds p ref : 0 <= p -> p <= 100 -> 0 <= ref -> 0 <= ref * p / 100 /\ ref * p / 100 <= ref.
+Proof.
+  intros A B C. setoid_replace (ref * p / 100) with (ref * p * (1 # 100)) by field.
+  assert (0 <= ref * p) by (apply Qmult_le_0_compat; assumption).
+  assert (0 <= ref * (100 - p)) by (apply Qmult_le_0_compat; lra).
+  split; lra.
+Qed.
+
+Theorem object_position_inside f rgt btm px py bw bh i cx cy dw dh x y :
+  rb_layout f rgt btm px py bw bh i cx cy = Some (dw, dh, x, y) ->
+  (forall p, px = Pct p -> 0 <= p -> p <= 100 -> dw <= bw -> cx <= x /\ x + dw <= cx + bw) /\
+  (forall p, py = Pct p -> 0 <= p -> p <= 100 -> dh <= bh -> cy <= y /\ y + dh <= cy + bh).
+Proof.
+  rewrite rb_layout_split. destruct (draw_size f bw bh i) as [[a b]|]; [|discriminate]. cbn [bind].
+  intro E. injection E as -> -> <- <-. unfold place.
+  split; intros p -> A B C; cbn [percentage].
+  - destruct (percentage_bounds p (bw - dw) A B ltac:(lra)). destruct rgt; lra.
+  - destruct (percentage_bounds p (bh - dh) A B ltac:(lra)). destruct btm; lra.
+Qed.
+
+Theorem object_position_aligned f rgt btm px py bw bh i cx cy dw dh x y p :
+  rb_layout f rgt btm px py bw bh i cx cy = Some (dw, dh, x, y) -> px = Pct p ->
+  aligned (if rgt then 100 - p else p) bw dw (x - cx).
+Proof.
+  rewrite rb_layout_split. destruct (draw_size f bw bh i) as [[a b]|]; [|discriminate]. cbn [bind].
+  intros E ->. injection E as -> -> <- <-. unfold place, aligned. cbn [percentage]. destruct rgt; field.
+Qed.
+
+Example object_position_example :
+  rb_layout Contain false true (Pct 50) (Pct 0) 100 100 (Intr (Some 40) (Some 20) (Some 2)) 10 20
+  = Some (100, 100 / 2, (100 - 100) * 50 / 100 + 10, (100 - 100 / 2) - (100 - 100 / 2) * 0 / 100 + 20).
+Proof. reflexivity. Qed.
